@@ -227,6 +227,9 @@ func (ev *evidence) write(verif string, spec *CheckSpec) error {
 		return err
 	}
 	dir := filepath.Join(verif, "evidence")
+	if d := os.Getenv("VERIF_EVIDENCE_DIR"); d != "" {
+		dir = d // scratch runs against modified trees must not overwrite the committed evidence
+	}
 	if err := os.MkdirAll(dir, 0o755); err != nil {
 		return err
 	}
